@@ -612,10 +612,14 @@ impl<'a> Compiler<'a> {
                 self.current_index.pop_subindex();
                 // if false jump over the body block (the jumps belong to this card, not to its body)
                 self.encode_if_then(Instruction::GotoIfFalse, |c| {
-                    // if true execute body and jump to block_begin
+                    // if true execute body and jump to block_begin. The body is a scope of its
+                    // own, like the body of the other loops: a variable it introduces lives for
+                    // one iteration (it used to stay declared, whether or not the body ever ran)
+                    c.scope_begin();
                     c.current_index.push_subindex(1);
                     c.process_card(body)?;
                     c.current_index.pop_subindex();
+                    c.scope_end();
                     c.push_instruction(Instruction::Goto);
                     write_to_vec(block_begin, &mut c.program.bytecode);
                     Ok(())
